@@ -143,12 +143,13 @@ func (c *Ctx) parserReuseJobs() []Job {
 			continue
 		}
 		for n := 0; n <= maxN; n++ {
-			for _, stale := range []int{0, 1, 3} {
+			for _, sc := range [][2]int{{0, 100}, {1, 100}, {3, 100}, {2, 160}} {
+				stale, capv := sc[0], sc[1]
 				jobs = append(jobs, Job{
-					Name:           fmt.Sprintf("parser-reuse %s N=%d stale=%d", g.Name, n, stale),
+					Name:           fmt.Sprintf("parser-reuse %s N=%d stale=%d cap=%d", g.Name, n, stale, capv),
 					Target:         t,
-					Run:            SymRun{Harness: "VerifC16Parser", Params: map[string]int{"N": n, "STALE": stale}, LoopBound: 8*(n+1) + 16, ForkFuncs: []string{"Parse", "VerifC16Parser", "Error"}},
-					Bounds:         fmt.Sprintf("grammar %s: parser object with %d arbitrary stale stack entries, arbitrary look-ahead and pos, versus a new parser, on every sequence of %d tokens", g.Name, stale, n),
+					Run:            SymRun{Harness: "VerifC16Parser", Params: map[string]int{"N": n, "STALE": stale, "CAP": capv}, LoopBound: 8*(n+1) + 16, ForkFuncs: []string{"Parse", "VerifC16Parser", "Error"}},
+					Bounds:         fmt.Sprintf("grammar %s: parser object with %d arbitrary stale stack entries in a stack of capacity %d (160 = grown by an earlier deep input), arbitrary look-ahead and pos, versus a new parser, on every sequence of %d tokens", g.Name, stale, capv, n),
 					RequiredCovers: []string{"end"},
 				})
 			}
